@@ -37,7 +37,7 @@ ASSUMPTIONS = [
     "an exception from is_valid is not 'reported valid'; it is tallied here and judged by C14",
     "V4 (completeness) is only demanded for strict identification lines, all-ASCII content and an upper- or lower-case 4-hex-digit checksum or none",
 ]
-MUST_FIRE = {"quick": ["ck_zero_judged", "ck_wrong_judged", "ck_good_judged", "ck_none_judged", "V4_checked", "direct_construct", "accessor_before_is_valid"], "thorough": ["ck_zero_judged", "ck_wrong_judged", "ck_good_judged", "ck_none_judged", "V4_checked", "direct_construct", "ck_zero_and_crc_zero"]}
+MUST_FIRE = {"quick": ["ck_zero_judged", "ck_wrong_judged", "ck_good_judged", "ck_none_judged", "V4_checked", "direct_construct", "accessor_before_is_valid", "sibling_readout_checked_first"], "thorough": ["ck_zero_judged", "ck_wrong_judged", "ck_good_judged", "ck_none_judged", "V4_checked", "direct_construct", "ck_zero_and_crc_zero"]}
 
 HEX4 = re.compile(rb"^[0-9A-Fa-f]{4}$")
 # a message object has a call history too: what was read from it before is_valid is evaluated
@@ -71,7 +71,12 @@ def gen(rng, tier, index):
     raw, _ = apply(spec, faults)
     pre = [rng.choice(ACCESSORS) for _ in range(rng.choice([0, 0, 0, 1, 2, 4]))]
     lead = rng.choice(["", "", "", "", "0d0a", "0a", "2d0a", "0d2a", "78", "000d0a", "20"])  # what precedes the start character when built from bytes
-    yield {"spec": spec, "faults": faults, "pre": pre, "lead": lead, "cuts": fragment.draw(rng, len(raw), [raw.find(b"!"), raw.find(b"!") + 1, raw.find(b"\n")])}
+    sc = {"spec": spec, "faults": faults, "pre": pre, "lead": lead, "cuts": fragment.draw(rng, len(raw), [raw.find(b"!"), raw.find(b"!") + 1, raw.find(b"\n")])}
+    if rng.random() < 0.2:
+        # the same meter sent (or the application checked) the same readout with another checksum field a moment ago:
+        # the verdict on this one must not be borrowed from that one
+        sc["sibling"] = rng.choice(["good", "wrong", "both"])
+    yield sc
 
 
 def apply(spec, faults):
@@ -197,10 +202,20 @@ def execute(sc):
     from han.dlde import DataReadout
 
     raw, fired = apply(sc["spec"], sc["faults"])
+    probes = {}
+    bang = raw.rfind(b"!")
+    if sc.get("sibling") and bang > 0:
+        good = p1_ref.crc16_arc_bits(raw[: bang + 1])
+        for kind in (["good", "wrong"] if sc["sibling"] == "both" else [sc["sibling"]]):
+            field = b"%04X" % (good if kind == "good" else good ^ 0x0101)
+            try:
+                DataReadout(raw[: bang + 1] + field + b"\r\n").is_valid  # noqa: B018 - evaluated for its side effects, if any
+                probes["sibling_readout_checked_first"] = 1
+            except Exception:  # noqa: BLE001 - the sibling's own trouble is not judged here
+                pass
     reader = reader_rig.make_reader("p1")
     fed = reader_rig.feed(reader, raw, sc["cuts"])
     viol = []
-    probes = {}
     states = set()
 
     def add(clause, facts, detail):
@@ -261,8 +276,12 @@ def summarise(sc):
 
 
 def candidates(sc):
+    if sc.get("sibling"):
+        yield {k: v for k, v in copy.deepcopy(sc).items() if k != "sibling"}
+    for simpler in fragment.simpler(sc["cuts"]):
+        yield dict(copy.deepcopy(sc), cuts=simpler)
     if sc["cuts"]["m"] != "whole":
-        yield dict(copy.deepcopy(sc), cuts={"m": "whole"})
+        yield dict(copy.deepcopy(sc), cuts=fragment.keep(sc["cuts"], {"m": "whole"}))
     for red in shrink.list_reductions(sc.get("pre") or []):
         yield dict(copy.deepcopy(sc), pre=red)
     for red in shrink.list_reductions(sc["faults"]):
